@@ -181,7 +181,7 @@ class C10(World):
             "w_edit": swarm_weights(rng, EDIT_KINDS, keep_p=0.6),
             "w_derived": swarm_weights(rng, DERIVED, keep_p=0.55),
             "n_build": rng.choice([1, 2, 3, 4, 5]),
-            "n_steps": rng.choice([1, 2, 2, 3, 4, 6]),
+            "n_steps": rng.choice([1, 2, 2, 3, 4, 6] if self.TIER != "thorough" else [2, 3, 4, 6, 8, 12]),
             "kinds": rng.choice([["mesh"], ["mesh"], ["mesh", "points"], ["mesh", "points", "path"], ["mesh", "path2d"], ["mesh", "points", "path", "path2d"]]),
             "units": rng.choice([None, "in", "mm"]),
             "p_derived": rng.choice([0.2, 0.5, 0.8]),
